@@ -160,11 +160,19 @@ def r1_vocabularies(ctx):
     fp_ = rm.func("fit_perform")
     ctx.analysed(fp_)
     stat_keys = set()
-    for n in ast.walk(fp_):
+    # (column functions of this module that fit_perform names count as
+    # part of it)
+    scope_ = [(fp_, None)] + [
+        (rm.funcs[n.id], n) for n in ast.walk(fp_)
+        if isinstance(n, ast.Name) and n.id in rm.funcs
+        and rm.funcs[n.id] is not fp_]
+    for n, ref_ in [(x, r_) for f_, r_ in scope_ for x in ast.walk(f_)]:
         if isinstance(n, ast.Subscript) and const_str(n.slice) and isinstance(
                 n.value, ast.Subscript) and const_str(
                     n.value.slice) == "params_fitted":
-            stat_keys.add((const_str(n.slice), n))
+            # (reported where fit_perform names the column function)
+            stat_keys.add((const_str(n.slice), ref_ if ref_ is not None
+                           else n))
     ctx.floor("fitted parameter used for the statistics", len(stat_keys), 1)
     for mod in facts.model_modules(ctx.repo):
         keys = facts.module_list(mod, "parameter_keys")
@@ -867,9 +875,11 @@ def r5_statistics(ctx):
     for e in dl.elts:
         name = const_str(e.elts[0])
         lam = e.elts[1]
-        if isinstance(lam, ast.Name) and f"fit_perform.{lam.id}" in rm.funcs:
-            # a nested def: judge its returned expression
-            ld_ = rm.funcs[f"fit_perform.{lam.id}"]
+        if isinstance(lam, ast.Name) and (
+                f"fit_perform.{lam.id}" in rm.funcs or lam.id in rm.funcs):
+            # a nested def (or a module-level function): judge its
+            # returned expression
+            ld_ = rm.funcs.get(f"fit_perform.{lam.id}") or rm.funcs[lam.id]
             rets_ = [r for r in walk_no_nested(ld_, False)
                      if isinstance(r, ast.Return)]
             if len(rets_) != 1 or len(ld_.args.args) != 1:
